@@ -30,6 +30,7 @@ fn configs(u: &universe::Universe, tier: Tier) -> Vec<Cfg> {
         big_cache: false,
         txs: ALL.to_vec(),
         max_dev: 1,
+        depth: 5,
     };
     // count-limited pool (4 transactions, chains of 3); the spent-input cache holds 5 keys
     // and overflows all the time; blocks carry <= 1 transaction.
@@ -43,9 +44,11 @@ fn configs(u: &universe::Universe, tier: Tier) -> Vec<Cfg> {
             gas(Cfg { name: "coins/gas4-chain3-cache65", txs: FAMILY_COINS.to_vec(), ..base.clone() }),
         ],
         Tier::Thorough => vec![
-            Cfg { name: "all/count4-chain3-cache5", rich: true, max_dev: 3, ..base.clone() },
-            gas(Cfg { name: "all/gas4-chain3-cache65", rich: true, max_dev: 3, ..base.clone() }),
-            Cfg { name: "all/count3-chain2-cache4", max_txs: 3, chain_limit: 2, max_dev: 2, ..base },
+            Cfg { name: "all/count4-chain3-cache5", rich: true, max_dev: 2, depth: 6, ..base.clone() },
+            gas(Cfg { name: "all/gas4-chain3-cache65", rich: true, max_dev: 2, depth: 6, ..base.clone() }),
+            Cfg { name: "all/count3-chain2-cache4", max_txs: 3, chain_limit: 2, max_dev: 2, depth: 6, ..base.clone() },
+            Cfg { name: "coins/count4-chain3-cache5", txs: FAMILY_COINS.to_vec(), rich: true, max_dev: 2, depth: 7, ..base.clone() },
+            Cfg { name: "contracts/count4-chain3-cache5", txs: FAMILY_CONTRACTS.to_vec(), rich: true, max_dev: 2, depth: 7, ..base },
         ],
     }
 }
@@ -80,10 +83,13 @@ fn main() {
         machinery_failure("replay: unknown subject");
     }
     let mut run = Run::new(&cli, "model_checking");
-    let depth = std::env::var("VH_TXPOOL_DEPTH").ok().and_then(|d| d.parse().ok()).unwrap_or(cli.tier.pick(5, 7));
     let n = subjects.len() as u64;
     for s in &subjects {
-        let b = Bounds::new(depth, &cli).deviations(s.cfg.max_dev).wall(cli.tier.pick(50, 1400 / n)).states(cli.tier.pick(600_000, 6_000_000));
+        let depth = std::env::var("VH_TXPOOL_DEPTH").ok().and_then(|d| d.parse().ok()).unwrap_or(s.cfg.depth);
+        let b = Bounds::new(depth, &cli)
+            .deviations(s.cfg.max_dev)
+            .wall(cli.tier.pick(50, 1400 / n))
+            .states(cli.tier.pick(600_000, 8_000_000));
         run.add(explore(s, &b));
     }
     let hits = subject::event_hits();
